@@ -849,9 +849,19 @@ def r6(ctx):
 
 
 def r7(ctx):
-    C04.r7(ctx, rule="R7", sites=[s for s in C04.ROW_CLASS_SITES if s[0] == "data.filter_dataset_to_treatments_that_appear_in_at_least_one_combo"])
     f = ctx.fn("data.filter_dataset_to_treatments_that_appear_in_at_least_one_combo")
     S = f.params[0]
+    # recognised wrong: membership in the reference set decided on treatment *names* (a treatment is a (name, dose) pair: a drug that
+    # occurs in a combination at one dose would keep its rows at every other dose)
+    env0 = single_defs(f.node)
+    by_name = [c for c in calls(f.node) if call_name(c) in ("np.isin", "np.in1d") and c.args
+               and U(inline(c.args[0], env0)).replace(" ", "").startswith((f"{S}.treatment_names", f"{S}.treatment_doses"))]
+    if by_name:
+        ctx.bad("R7", f"{f.site()}::membership-by-treatment-id", f"membership in the set of combination treatments is tested on `{U(by_name[0].args[0])}` "
+                f"(`{U(by_name[0])[:90]}`), not on treatment ids: a treatment is a (name, dose) pair, so rows of a drug at a dose that never occurs in a "
+                f"combination are kept")
+        return
+    C04.r7(ctx, rule="R7", sites=[s for s in C04.ROW_CLASS_SITES if s[0] == "data.filter_dataset_to_treatments_that_appear_in_at_least_one_combo"])
     ids = "treatment_ids"
     env = {k: v for k, v in single_defs(f.node).items() if k != ids}
     r = returns(f.node)
